@@ -224,8 +224,39 @@ def obj_from_value(v):
     raise ValueError(v)
 
 
+def resolve_alias(st, al):
+    """the VALUE of an argument that is an object of the store: ('@', k, path) is container k or, following the path (indices
+    modulo the length) through nested lists, the member stored there.  The reference has values only: whether an argument is
+    the stored object or an equal copy of it makes no difference to any answer"""
+    o = st[al[1]]
+    if o[0] != "L":
+        return None
+    cur = ("L", list(o[1]))
+    for i in al[2]:
+        if cur[0] != "L" or not cur[1]:
+            break
+        cur = cur[1][i % len(cur[1])]
+    return cur
+
+
+def resolve_op(st, op):
+    if not any(isinstance(x, tuple) and x and x[0] == "@" for x in op[1:]):
+        return op
+    out = [op[0]]
+    for x in op[1:]:
+        if isinstance(x, tuple) and x and x[0] == "@":
+            x = resolve_alias(st, x) if x[1] < len(st) else None
+            if x is None:
+                return None
+        out.append(x)
+    return tuple(out)
+
+
 def ref_step(st, op):
     """returns the list of acceptable (outcome text, new store) pairs; the store is copied on write"""
+    op = resolve_op(st, op)
+    if op is None:
+        return None
     name, a = op[0], op[1:]
 
     def same(out):
@@ -331,6 +362,12 @@ def ref_step(st, op):
         return same("V " + ("t" if h is not None and h in o[1] else "f"))
     if name == "len":
         return same("V i%d" % len(o[1]))
+    if name == "eq":
+        if kind != "L":
+            return None
+        return same("V " + ("t" if req(("L", o[1]), a[1]) else "f"))
+    if name == "eqwrap":
+        return same("V " + ("t" if req(a[1], a[1]) else "f"))
     if name == "clear":
         return upd(r, [kind, [] if kind == "L" else {}], "R%d" % r)
     if name == "copy":
@@ -806,6 +843,82 @@ def gen_store_case(r, maxlen, malformed, flavour):
     return ops, script_only
 
 
+NAN_BITS = [0x7FF8000000000000, 0xFFF8000000000000, 0x7FF0000000000001]
+
+
+def gen_alias_elem(r, depth=0):
+    """members for the aliasing histories: values that are not equal to themselves (NaN), values that are equal but
+    distinguishable (1, 1.0, byte 1; 0.0 and -0.0; a string and a byte_slice), nested lists of those, and the usual pool"""
+    c = r.below(14)
+    if c < 3:
+        return ("d", r.choice(NAN_BITS))
+    if c < 6:
+        return r.choice([("i", 1), ("d", fbits(1.0)), ("y", 1), ("d", fbits(0.0)), ("d", fbits(-0.0)), ("i", 0), ("s", b"a"), ("b", b"a")])
+    if c < 9 and depth < 2:
+        return ("L", [gen_alias_elem(r, depth + 1) for _ in range(1 + r.below(3))])
+    return gen_elem(r, 2)
+
+
+def gen_alias_case(r, maxops):
+    """histories whose search / remove / compare arguments ARE objects of the store: a member read back from the container
+    that is searched (l.index(l[i]), l.count(x), x in l, l.remove(x)), a member of a nested list, a member of another container
+    that shares it (copy, slice, concatenation, extend), the container itself (l == l, l.count(l)) - next to the same
+    operations with fresh equal values, and mutations in between"""
+    st, ops = [], []
+
+    def emit(op):
+        nonlocal st
+        alts = ref_step(st, op)
+        ops.append(op)
+        if alts is None or alts == "sort-incomparable":
+            return
+        st = alts[-1][1]
+
+    emit(("newlist", ("L", [gen_alias_elem(r) for _ in range(1 + r.below(6))])))
+    if r.chance(1, 3):
+        emit(("newlist", ("L", [gen_alias_elem(r) for _ in range(r.below(5))])))
+    n_ops = 4 + r.below(maxops - 3)
+    guard = 0
+    while len(ops) < n_ops and guard < 200:
+        guard += 1
+        lists = [i for i, o in enumerate(st) if o[0] == "L"]
+        t = r.choice(lists)
+        n = len(st[t][1])
+        c = r.below(20)
+        if c < 11:
+            src = t if r.chance(3, 4) else r.choice(lists)
+            path = []
+            if not r.chance(1, 7):
+                cur = ("L", st[src][1])
+                while cur[0] == "L" and cur[1] and (not path or r.chance(1, 3)):
+                    i = r.below(len(cur[1]))
+                    path.append(i)
+                    cur = cur[1][i]
+            al = ("@", src, tuple(path))
+            name = r.choice(["contains", "count", "index", "remove", "eq", "eqwrap", "index", "count"])
+            if name == "remove" and not path:
+                name = "count"
+            emit((name, t, al))
+        elif c < 13:
+            # the same question with a fresh, equal value
+            v = gen_alias_elem(r) if not n or r.chance(1, 3) else st[t][1][r.below(n)]
+            emit((r.choice(["contains", "count", "index", "remove", "eq"]), t, v))
+        elif c < 15:
+            emit(("append", t, gen_alias_elem(r)))
+        elif c == 15:
+            emit(("insert", t, ("i", r.below(n + 3) - 1), gen_alias_elem(r)))
+        elif c == 16 and n:
+            emit(("setitem", t, ("i", r.below(n)), gen_alias_elem(r)))
+        elif c == 17:
+            emit((r.choice(["reverse", "copy", "reversed"]), t))
+        elif c == 18 and len(st) < 6:
+            lo = None if r.chance(1, 3) else ("i", r.below(n + 1))
+            emit(("slice", t, lo, None)) if r.chance(1, 2) else emit((r.choice(["concat", "extend"]), t, r.choice(lists)))
+        elif n:
+            emit(("pop", t, ("i", r.below(n))))
+    return ops
+
+
 def gen_bytes_case(r, maxlen, malformed):
     st = []
     ops = []
@@ -868,6 +981,8 @@ def optext(op):
             parts.append("r%d" % x)
         elif x is None:
             parts.append("-")
+        elif x[0] == "@":
+            parts.append("@r%d" % x[1] + "".join(".%d" % i for i in x[2]))
         else:
             parts.append(text(x))
     return " ".join(parts)
@@ -891,6 +1006,10 @@ def parse_op(kind, s):
             pos += 1
         elif t[0] == "r" and t[1:].isdigit():
             out.append(int(t[1:]))
+            pos += 1
+        elif t.startswith("@r"):
+            ix = t[2:].split(".")
+            out.append(("@", int(ix[0]), tuple(int(i) for i in ix[1:])))
             pos += 1
         else:
             v, pos = parse_text(toks, pos)
@@ -978,7 +1097,7 @@ def judge_store(ops, line, F, case_text, stats):
                 return
 
 
-READONLY = {"enumerate", "get", "slice", "contains", "len", "copy", "count", "index", "reversed", "sorted", "keys", "concat", "map_val",
+READONLY = {"eq", "eqwrap", "enumerate", "get", "slice", "contains", "len", "copy", "count", "index", "reversed", "sorted", "keys", "concat", "map_val",
             "map_idx", "map_pair", "map_idxcopy", "filter_truthy", "filter_all", "filter_none", "mgetd", "mvalues", "mitems",
             "sunion", "sinter", "newlist", "newmap", "newset"}
 
@@ -1194,6 +1313,36 @@ def _body(res, tier, obs, model, work, proved):
             if g.startswith("V"):
                 nontrivial.add(lines[i][2:].split(" ", 1)[1])
 
+    # histories whose arguments are objects of the store (judged by the oracle; the extracted model has values only, so an
+    # aliased argument and its value are the same case there)
+    n_alias = 3000 if q else 100000
+    acases = []
+    for k in range(n_alias):
+        acases.append(("A", "script" if k % 3 == 0 else "api", gen_alias_case(rng, 16)))
+    alines = [case_line(k, r, o) for k, r, o in acases]
+    ago, e3 = run_sharded(obs, alines, work, "al", C.NCPU)
+    if ago is None:
+        res.violation({"property": PROP, "kind": "harness-run-failed", "stage": "c16obs aliasing histories", "log": e3}, nofail=True, tag="run")
+        return
+    astats = {"steps": 0, "ok_steps": 0, "error_steps": 0, "unjudged": 0}
+    aliased_found = 0
+    for i, (kind, route, ops) in enumerate(acases):
+        g = ago[i]
+        if g.startswith("BADCASE"):
+            F.append({"clause": "observation", "case": alines[i], "why": g, "known": None})
+            continue
+        judge_store(ops, g, F, alines[i], astats)
+        for o in ops:
+            if any(isinstance(x, tuple) and x and x[0] == "@" for x in o[1:]):
+                opcount["alias_" + o[0]] = opcount.get("alias_" + o[0], 0) + 1
+        if " ;; V t #" in g or " ;; V i0 #" in g or " ;; V i1 #" in g:
+            aliased_found += 1
+        nontrivial.add(alines[i][2:].split(" ", 1)[1])
+    stats["alias_cases"] = n_alias
+    stats["alias_steps"] = astats["steps"]
+    stats["alias_steps_unjudged"] = astats["unjudged"]
+    stats["alias_cases_with_a_hit"] = aliased_found
+
     known_ids = load_known_ids()
     viol, known_seen = [], {}
     for f in F:
@@ -1209,7 +1358,10 @@ def _body(res, tier, obs, model, work, proved):
                    "bytes): up to %d operations over up to 9 container objects per case, indices drawn from [-len-2, len+2] "
                    "plus int64 extremes, values from a scalar/nested-list pool with cross-type equal members (1, 1.0, byte 1), "
                    "every list / map / set / byte_slice method and subscript form, aliasing scenarios (slice, copy, extend "
-                   "with itself, callbacks that return their index, byte_slice slices then item assignment); one case in five "
+                   "with itself, callbacks that return their index, byte_slice slices then item assignment; histories whose search / "
+                   "remove / compare arguments ARE objects of the store - a member read back from the searched list, from a nested list, "
+                   "from a container sharing it after copy / slice / concat / extend, the container itself - over members that are not "
+                   "equal to themselves (NaN) or equal but distinguishable (1, 1.0, byte 1, 0.0, -0.0), with l == x and [x] == [x]); one case in five "
                    "carries wrongly typed indices, keys and operands (malformed stream). Each case runs through the object API "
                    "or through one risor.Eval per step; after every step the outcome and the contents of all objects are "
                    "compared with the reference (oracle) and with the extracted Gallina model (correspondence). Non-trivial = "
